@@ -255,6 +255,7 @@ struct Model {
       { std::ostringstream k; k << 'S' << chosen << '.' << i; o.clog.push_back(k.str()); }
       if (semode[i] == 1) { status = 1; std::ostringstream k; k << "se:" << chosen << '.' << i; result = k.str(); }
       else if (semode[i] == 4) { if (st.ntracer < NTRC) st.tracer_kind[st.ntracer++] = 0; }  // a tracer whose lifetime begins inside the call
+      else if (semode[i] == 5) { if (st.obj_alive[obj]) destroy_mock_inline(obj, o); }          // the side effect destroys the mock object ("delete this"): the remaining clauses still run
       else if (semode[i] == 2 || semode[i] == 3) {
         int nfn = semode[i] == 2 ? (int)G1 : (int)F1, na = semode[i] == 2 ? a1 : a1 + 1;
         if (semode[i] == 3 && a1 >= 2) continue;
